@@ -535,6 +535,20 @@ package ech
 //@ pure ttlIsMin(ttl uint32, ans []dns.RR) bool = (len(ans) == 0 ==> int(ttl) == 0) &&
 //@     (len(ans) > 0 ==> forall(j, 0, len(ans), int(ttl) <= int(ans[j].TTL), trig(ans[j])) && exists(j, 0, len(ans), int(ttl) == int(ans[j].TTL)))
 
+// validQueryName accepts exactly the names whose labels (trailing dot removed) are at most 63 octets, 255 in total.
+//@ func validQueryName returns (ok)
+//@   terminates
+//@   ensures[F:valid] ok == (len(name) <= 255 && maxPart(trimSuffixOf(cid(name), cid(".")), cid(".")) <= 63)
+//@   loop 1 "range strings.Split"
+//@     invariant forall(j, 0, ri1, len(rx1[j]) <= 63, trig(rx1[j]))
+
+// chainId(ans, w0, i): the owner name (content identity, trailing dot removed) that is being looked for after the first i
+// answer records: it starts as the queried name and moves to the target of every CNAME record owned by the current name.
+//@ purerec chainId(ans []dns.RR, w0 int, i int) int = ite(i <= 0, w0, ite(trimSuffixOf(cid(ans[i-1].Name), cid(".")) == chainId(ans, w0, i-1) && int(ans[i-1].Type) == 5,
+//@     trimSuffixOf(cid(payloadS(ans[i-1].Data)), cid(".")), chainId(ans, w0, i-1)))
+// ownRecord(ans, w0, j, qt): answer record j is owned by the name current at its position and has the queried type.
+//@ pure ownRecord(ans []dns.RR, w0 int, j int, qt int) bool = trimSuffixOf(cid(ans[j].Name), cid(".")) == chainId(ans, w0, j) && int(ans[j].Type) == qt
+
 //@ func Resolver.resolveOneNoCache returns (res, ttl, err)
 //@   requires r != nil
 //@   modifies rpos, closed, reqcount(0)
@@ -543,11 +557,14 @@ package ech
 //@   ensures[F:error-no-result] err != nil ==> isnil(res) && int(ttl) == 0
 //@   ensures[F:one-upstream-call] reqcount(0) <= old(reqcount(0)) + 1 && (err == nil ==> reqcount(0) == old(reqcount(0)) + 1)
 //@   check[F:ttl-min] err == nil && len(result.Answer) > 0 ==> ttlIsMin(ttl, result.Answer)
+//@   check[F:only-own-records] err == nil ==> forall(k, 0, len(res), exists(j, 0, len(result.Answer), res[k] == result.Answer[j].Data && ownRecord(result.Answer, trimSuffixOf(cid(name), cid(".")), j, rrTypeOf(cid(typ))), trig(result.Answer[j])), trig(res[k]))
 //@   check[F:ttl-negative] err == nil && len(result.Answer) == 0 ==> int(ttl) == 300 && len(res) == 0
 //@   loop 1 "range result.Answer"
 //@     invariant[F:ttl-min] ri1 > 0 ==> ttlIsMin(ttl, result.Answer[:ri1])
 //@     invariant[F:ttl-zero] ri1 == 0 ==> int(ttl) == 0
 //@     invariant[F:res-bound] len(res) <= ri1
+//@     invariant[F:chain] cid(want) == chainId(result.Answer, trimSuffixOf(cid(name), cid(".")), ri1)
+//@     invariant[F:own-records] forall(k, 0, len(res), exists(j, 0, ri1, res[k] == result.Answer[j].Data && ownRecord(result.Answer, trimSuffixOf(cid(name), cid(".")), j, rrTypeOf(cid(typ))), trig(result.Answer[j])), trig(res[k]))
 
 //@ func Resolver.resolveOne returns (res, err)
 //@   requires r != nil
